@@ -176,6 +176,7 @@ def gen_world(rng, f):
     mixed = rng.random() < f["p_mixed_names"]
     has_kw = rng.random() < f["p_kw"]
     kw_flavour = "type" if rng.random() < 0.15 else "cls"
+    has_kw2 = has_kw and rng.random() < 0.35
     use_prio = rng.random() < f["p_prio"]
 
     def pos_ann(p):
@@ -218,6 +219,14 @@ def gen_world(rng, f):
             else:
                 kann = ["c", rng.choice(names)] if rng.random() < 0.7 else ["o"]
             params.append(["k0", "kw", kann, rng.random() < 0.4])
+        if has_kw2 and rng.random() < 0.7:
+            # a second keyword-only parameter, declared before or after k0 depending on the method
+            k1 = ["k1", "kw", ["c", rng.choice(names)] if rng.random() < 0.7 else ["o"],
+                  rng.random() < 0.4]
+            if params and params[-1][1] == "kw" and rng.random() < 0.5:
+                params.insert(len(params) - 1, k1)
+            else:
+                params.append(k1)
         prio = rng.choice([-1, 1, 2]) if (use_prio and rng.random() < 0.4) else 0
         sigkey = (repr([p[2] for p in params]), prio)
         if sigkey in seen and rng.random() >= f["p_dup_sig"]:
@@ -255,7 +264,7 @@ def gen_world(rng, f):
         "protocols": protocols, "markers": markers,
         "methods": methods,
         "meta": {"min_ar": min_ar, "max_ar": max_ar, "flavour": flavour,
-                 "has_kw": has_kw, "mixed": mixed, "kw_flavour": kw_flavour,
+                 "has_kw": has_kw, "has_kw2": has_kw2, "mixed": mixed, "kw_flavour": kw_flavour,
                  "self": (rng.choice(["func", "ovld"]) if rng.random() < f["p_self"] else None)},
     }
     return spec
@@ -290,6 +299,11 @@ def gen_call(rng, spec, odd_shapes=True):
     c = {"args": args}
     if meta["has_kw"] and rng.random() < 0.6:
         c["kw"] = {"k0": gen_value(rng, spec, meta.get("kw_flavour", "cls"))}
+    if meta.get("has_kw2") and rng.random() < 0.6:
+        kw = c.setdefault("kw", {})
+        kw["k1"] = gen_value(rng, spec, "cls")
+        if rng.random() < 0.5:  # keyword order at the call site varies too
+            c["kw"] = dict(reversed(list(kw.items())))
     return c
 
 
